@@ -85,10 +85,20 @@ type Ctx struct {
 	// declarations of variables and uninterpreted functions, in creation order
 	Decls    []string
 	declared map[string]bool
+	// Chains remembers, for ite chains built by Select, the index term and the
+	// per-index leaves, so that lookups of lookups compose and tables that are
+	// linear in the index collapse to arithmetic.
+	Chains map[int]*ChainInfo
+}
+
+// ChainInfo: the term equals Leaves[k] whenever Idx == k, 0 <= k < len(Leaves).
+type ChainInfo struct {
+	Idx    *Term
+	Leaves []*Term
 }
 
 func NewCtx() *Ctx {
-	c := &Ctx{tab: map[string]*Term{}, declared: map[string]bool{}}
+	c := &Ctx{tab: map[string]*Term{}, declared: map[string]bool{}, Chains: map[int]*ChainInfo{}}
 	c.True = c.mk(&Term{Op: OpConst, W: 0, Val: big.NewInt(1)})
 	c.False = c.mk(&Term{Op: OpConst, W: 0, Val: big.NewInt(0)})
 	return c
@@ -135,8 +145,114 @@ func (c *Ctx) mk(t *Term) *Term {
 
 const maxCL = 600
 
+// Select builds the term "leaves[idx]" for an index known to lie in
+// [0, len(leaves)). Lookups whose index is itself a Select over constants are
+// composed; tables linear in the index become arithmetic.
+func (c *Ctx) Select(leaves []*Term, idx *Term) *Term {
+	if idx.IsConst() {
+		k := idx.Uint64()
+		if k >= uint64(len(leaves)) {
+			k = 0
+		}
+		return leaves[k]
+	}
+	if inf := c.Chains[idx.ID]; inf != nil {
+		allConst := true
+		for _, l := range inf.Leaves {
+			if !l.IsConst() {
+				allConst = false
+				break
+			}
+		}
+		if allConst {
+			nl := make([]*Term, len(inf.Leaves))
+			for k, l := range inf.Leaves {
+				j := l.Uint64()
+				if j >= uint64(len(leaves)) {
+					j = 0
+				}
+				nl[k] = leaves[j]
+			}
+			return c.Select(nl, inf.Idx)
+		}
+	}
+	if lin := c.linear(leaves, idx); lin != nil {
+		return lin
+	}
+	w := idx.W
+	res := leaves[len(leaves)-1]
+	for j := len(leaves) - 2; j >= 0; j-- {
+		e := leaves[j]
+		if e == res {
+			continue
+		}
+		j0 := j
+		for j0 > 0 && leaves[j0-1] == e {
+			j0--
+		}
+		var cond *Term
+		if j0 == j {
+			cond = c.Eq(idx, c.BV(uint64(j), w))
+		} else {
+			cond = c.And(c.Ule(c.BV(uint64(j0), w), idx), c.Ule(idx, c.BV(uint64(j), w)))
+		}
+		res = c.Ite(cond, e, res)
+		j = j0
+	}
+	if res.Op == OpIte {
+		c.Chains[res.ID] = &ChainInfo{Idx: idx, Leaves: leaves}
+	}
+	return res
+}
+
+// linear returns l0 + d*idx if the constant leaves are an affine function of
+// the index (modulo 2^W), else nil.
+func (c *Ctx) linear(leaves []*Term, idx *Term) *Term {
+	n := len(leaves)
+	if n < 3 {
+		return nil
+	}
+	for _, l := range leaves {
+		if !l.IsConst() {
+			return nil
+		}
+	}
+	w := leaves[0].W
+	m := mask(w)
+	d := new(big.Int).Sub(leaves[1].Val, leaves[0].Val)
+	d.And(d, m)
+	cur := new(big.Int).Set(leaves[0].Val)
+	for k := 1; k < n; k++ {
+		cur.Add(cur, d)
+		cur.And(cur, m)
+		if cur.Cmp(leaves[k].Val) != 0 {
+			return nil
+		}
+	}
+	// the index is < n; it must be representable in w bits to be resized safely
+	if w < 64 && uint64(n-1) >= uint64(1)<<uint(w) {
+		return nil
+	}
+	ix := c.Resize(idx, w, false)
+	return c.Add(leaves[0], c.Mul(ix, c.BVBig(d, w)))
+}
+
 // mapCL applies f to every constant leaf of a const-leaf ite tree.
 func (c *Ctx) mapCL(t *Term, f func(*Term) *Term) *Term {
+	if inf := c.Chains[t.ID]; inf != nil {
+		nl := make([]*Term, len(inf.Leaves))
+		ok := true
+		for k, l := range inf.Leaves {
+			if !l.IsConst() {
+				ok = false
+				break
+			}
+			nl[k] = f(l)
+		}
+		if ok {
+			return c.Select(nl, inf.Idx)
+		}
+	}
 	memo := map[int]*Term{}
 	var rec func(t *Term) *Term
 	rec = func(t *Term) *Term {
